@@ -316,6 +316,14 @@ impl Prop for C03 {
                 if p.contains_key("Nope") || p.get("Nope").is_some() || p.get_all("Nope").count() != 0 {
                     out.push(viol("absent-key", format!("text {:?}", text)));
                 }
+                // a name in another letter case is another name
+                for (k, _) in want {
+                    for alt in [k.to_lowercase(), k.to_uppercase()] {
+                        if !want.iter().any(|(k2, _)| *k2 == alt) && (p.contains_key(&alt) || p.get(&alt).is_some() || p.get_all(&alt).count() != 0) {
+                            out.push(viol("absent-key", format!("text {:?}: lookup of {:?} finds the field {:?}", text, alt, k)));
+                        }
+                    }
+                }
             }
             match Paragraph::from_str(text) {
                 Ok(p) => {
